@@ -15,14 +15,20 @@ import TempestVerif.Model.StateMgr
       results | todict                    compute_results() | to_dict()
       logw:<int>                          compute_logw_and_logz(float(<int>))  (only in well-formed states, else `skip`)
       imp:<i>:<mode>                      update_from_dict built from the export returned by op i (a `todict`);
-                                          mode ⊆ {c,h,z}: c = "_current" section, h = "_history" section,
-                                          z = additionally a history key "zz" (not a valid history key) ↦ []
+                                          mode ⊆ {c,h,z,s}: c = "_current" section, h = "_history" section,
+                                          z = additionally a history key "zz" (not a valid history key) ↦ [],
+                                          s = the harness passes the exported list objects themselves (no effect here:
+                                          update_from_dict builds fresh lists)
+      fromd:<i>:<mode>                    other = StateManager.from_dict(<same dictionary>); the second manager exists on the
+                                          harness side only, the digest section `O=` says whether all second managers still
+                                          read what they read when they were built (`-` = none built)
+      mut:<i>:<clear|dup|nonecur>         the caller mutates the containers of the dictionary exported by op i
       scr:<i>:<val>                       the caller overwrites EVERY array it obtained in op i with `val`
   arg:  N (None) | S<int> (scalar) | A<int>.<int>.… (new array with this payload; `A` = empty) |
         H<i> (the single array obtained in op i)
   Anything else (or an `H<i>`/`imp:<i>` whose op i does not qualify) answers `bad-op` for that op and leaves the state alone.
 
-  digest:  r=<result>#c=<current>#h=<history>#R=<results>#W=<logw>   with keys sorted, payloads only:
+  digest:  r=<result>#c=<current>#h=<history>#R=<results>#W=<logw>#O=<other managers>   with keys sorted, payloads only:
       N | S<int> | A<int>.<int>… | O (unreadable cell);  result: U | V:<pval> | D:<dict> | X:<dict>;<hist> | E:<err>
   `None` slots / empty history lists / empty result arrays are omitted and `;n=<number of keys>` is appended; `logw` is
   reported by length.  `compute_results()` is only exercised in well-formed states (`wellFormed`), otherwise `skip`.
@@ -96,6 +102,20 @@ structure Sim where
   s : State
   recs : List Rec      -- one per op, in order
   out : List String
+  others : Nat := 0    -- number of second managers built by `fromd` (they live in the harness only)
+
+/-- `mut:i:<kind>` — the caller mutates the CONTAINERS of the dictionary exported by op i (its own Python objects):
+    clear = every history list emptied, dup = the last entry of every non-empty history list appended once more,
+    nonecur = every `_current` slot of the dictionary set to None -/
+def mutExport (kind : String) : Res → Option Res
+  | .export c h =>
+    if kind == "clear" then some (.export c (h.map fun kv => (kv.1, [])))
+    else if kind == "dup" then some (.export c (h.map fun kv => (kv.1, match kv.2.getLast? with
+      | some v => kv.2 ++ [v]
+      | none => kv.2)))
+    else if kind == "nonecur" then some (.export (c.map fun kv => (kv.1, Val.none)) h)
+    else none
+  | _ => none
 
 def parseArg (recs : List Rec) (t : String) : Option Arg :=
   if t == "N" then some .none else
@@ -148,7 +168,7 @@ def parseOp (recs : List Rec) (t : String) : Option Op :=
   | ["logw", b] => b.toInt?.map Op.logw
   | ["todict"] => some .toDict
   | ["imp", i, mode] =>
-    if !(mode.toList.all fun ch => ch == 'c' || ch == 'h' || ch == 'z') then none else
+    if !(mode.toList.all fun ch => ch == 'c' || ch == 'h' || ch == 'z' || ch == 's') then none else
     match i.toNat? with
     | some n => match recs[n]? with
       | some rc => match rc.res with
@@ -164,10 +184,11 @@ def parseOp (recs : List Rec) (t : String) : Option Op :=
     | none => none
   | _ => none
 
-def digest (r : String) (s : State) : State × String :=
+def digest (r : String) (s : State) (others : Nat := 0) : State × String :=
+  let osec := if others == 0 then "#O=-" else "#O=ok"
   if !wellFormed s then
     let hist := (derefHist s.heap s.history).filter fun kv => historyKeys.contains kv.1
-    (s, s!"r={r}#c={showDict (derefDict s.heap s.current)}#h={showHist hist}#R=skip#W=skip") else
+    (s, s!"r={r}#c={showDict (derefDict s.heap s.current)}#h={showHist hist}#R=skip#W=skip{osec}") else
   let q := step s .computeResults
   let o : Obs := { current := derefDict s.heap s.current, history := derefHist s.heap s.history,
                    results := derefRes q.1.heap q.2, logw := (observe s).logw }
@@ -175,7 +196,7 @@ def digest (r : String) (s : State) : State × String :=
   let w := match o.logw with
     | .arr c => s!"{c.length}:ok"
     | _ => "O"
-  (q.1, s!"r={r}#c={showDict o.current}#h={showHist hist}#R={showResults o.results}#W={w}")
+  (q.1, s!"r={r}#c={showDict o.current}#h={showHist hist}#R={showResults o.results}#W={w}{osec}")
 
 /-- `scr:i:val` — overwrite every array obtained in op i (same length, every entry = val) -/
 def scribbleAll (s : State) (addrs : List Addr) (val : Int) : State :=
@@ -185,35 +206,47 @@ def scribbleAll (s : State) (addrs : List Addr) (val : Int) : State :=
     | none => st) s
 
 def exec (sim : Sim) (t : String) : Sim :=
-  let bad : Sim :=
-    let d := digest "bad-op" sim.s
-    { s := d.1, recs := sim.recs ++ [⟨[], .unit⟩], out := sim.out ++ [d.2] }
+  let plain (r : String) (s1 : State) (others : Nat) : Sim :=
+    let d := digest r s1 others
+    { s := d.1, recs := sim.recs ++ [⟨[], .unit⟩], out := sim.out ++ [d.2], others := others }
+  let bad : Sim := plain "bad-op" sim.s sim.others
   match t.splitOn ":" with
   | ["scr", i, v] =>
     match i.toNat?, v.toInt? with
     | some n, some val =>
       match sim.recs[n]? with
-      | some rc =>
-        let s1 := scribbleAll sim.s rc.addrs val
-        let d := digest "U" s1
-        { s := d.1, recs := sim.recs ++ [⟨[], .unit⟩], out := sim.out ++ [d.2] }
+      | some rc => plain "U" (scribbleAll sim.s rc.addrs val) sim.others
       | none => bad
     | _, _ => bad
+  | ["mut", i, kind] =>
+    match i.toNat? with
+    | some n => match sim.recs[n]? with
+      | some rc => match mutExport kind rc.res with
+        | some r' =>
+          let d := digest "U" sim.s sim.others
+          { sim with s := d.1, recs := (sim.recs.set n { rc with res := r' }) ++ [⟨[], .unit⟩], out := sim.out ++ [d.2] }
+        | none => bad
+      | none => bad
+    | none => bad
+  | ["fromd", i, mode] =>
+    -- `StateManager.from_dict(<dictionary of op i>)`: a second manager; this manager is not touched
+    match parseOp sim.recs s!"imp:{i}:{mode}" with
+    | some _ => plain "U" sim.s (sim.others + 1)
+    | none => bad
   | _ =>
     match parseOp sim.recs t with
     | none => bad
     | some op =>
       if (match op with | .computeResults => !wellFormed sim.s | .logw _ => !wellFormed sim.s | _ => false) then
-        let d := digest "skip" sim.s
-        { s := d.1, recs := sim.recs ++ [⟨[], .unit⟩], out := sim.out ++ [d.2] } else
+        plain "skip" sim.s sim.others else
       let q := step sim.s op
       let newAddrs := q.1.escaped.take (q.1.escaped.length - sim.s.escaped.length)
       let rs := match op with
         | .computeResults => (match derefRes q.1.heap q.2 with | .dict d => "D:" ++ showResults (.dict d) | r => showPRes r)
         | .logw _ => (match derefRes q.1.heap q.2 with | .val (.arr c) => s!"L:{c.length}:ok" | r => showPRes r)
         | _ => showPRes (derefRes q.1.heap q.2)
-      let d := digest rs q.1
-      { s := d.1, recs := sim.recs ++ [⟨newAddrs, q.2⟩], out := sim.out ++ [d.2] }
+      let d := digest rs q.1 sim.others
+      { sim with s := d.1, recs := sim.recs ++ [⟨newAddrs, q.2⟩], out := sim.out ++ [d.2] }
 
 def runOps (ops : String) : String :=
   let toks := if ops == "-" then [] else ops.splitOn ";"
